@@ -129,6 +129,8 @@ theorem strip_decodeR : ∀ ty : Ty, strip (decodeR ty) = strip (decodeP ty)
         strip_decodeVecWithLen_congr sz t ih]
   | .box sz t => by
     simp only [decodeR, decodeP, strip, strip_bind, strip_decodeR t]
+  | .wrap t => by
+    simp only [decodeR, decodeP, strip, strip_bind, strip_decodeR t]
   | .range t => by
     simp only [decodeR, decodeP, strip, strip_bind, strip_decodeR t]
   | .enum idxs ts => by
